@@ -30,7 +30,7 @@ LEVEL_TEXT = ("Real runs of lengths 1-12 with output periods 1-4 and all plug-in
               "time, release, forcing, [output iff step >= 0], tracker, ibm - each exactly once - and close exactly once per module that has one.")
 LEVEL_NOTE = "The two traces are recorded by different mechanisms (wrappers vs interpreter events) and must agree call for call; a run whose tracer saw zero anchored calls is inconclusive."
 RULE = ("case = (variant, steps, period, plug-in spelling, warm/cold, kill schedule). Non-trivial: at least 2 steps and a release after the first step or an IBM kill; distinct by parameters.")
-MANDATORY = ["plugin_section_with_module_only", "steps_parsed", "traces_agree", "plugin_relative", "plugin_absolute", "plugin_with_py", "plugin_subdir", "plugin_module_name", "decoy_present", "warm_start_runs",
+MANDATORY = ["v1_user_gridforce_module", "v1_user_module_name_ending_in_ROMS", "no_particles_during_first_steps", "stock_scalar_values_checked", "plugin_section_with_module_only", "steps_parsed", "traces_agree", "plugin_relative", "plugin_absolute", "plugin_with_py", "plugin_subdir", "plugin_module_name", "decoy_present", "warm_start_runs",
              "output_plugin_runs", "forcing_plugin_runs", "coded_scalar_values_checked", "ibm_positions_checked", "kills_checked", "ibm_kills_everybody_present", "late_release_in_record", "close_calls_checked"]
 ASSUMPTIONS = ["state and time have no close by design; close is required exactly once only for modules that define one"]
 MIN_CASES_PER_PROCESS = 4  # several runs share one interpreter: state leaking between runs (module caches, shared defaults) becomes observable
@@ -49,6 +49,9 @@ def gen_cases(tier: str, seed: int) -> list[dict[str, Any]]:
         warm = bool(i % 4 == 3 and variant != "recout")
         cases.append(dict(idx=i, variant=variant, nsteps=int(rng.integers(1, 13)), period=int(rng.integers(1, 5)) if i % 2 else 1,
                           spelling=SPELLINGS[i % len(SPELLINGS)], warm=warm, seed=seed))
+    # legacy (version 1) configuration files naming a user's own grid/forcing module in the gridforce section
+    for i in range(8 if tier == "quick" else 400):
+        cases.append(dict(kind="v1_gridforce", idx=i, seed=seed, nsteps=3 + i % 5))
     return cases
 
 
@@ -124,7 +127,57 @@ class Tracer:
         return None
 
 
+def run_v1_gridforce(case: dict[str, Any], wd: Path) -> dict[str, Any]:
+    """A version-1 file whose gridforce module is the user's own file: that file's Grid and Forcing are the ones that run."""
+    from vmon.scenario import run_ladim, write_release, write_yaml  # noqa: PLC0415
+    from vmon import world as W  # noqa: PLC0415
+
+    wd.mkdir(parents=True, exist_ok=True)
+    ns, dt = case["nsteps"], 600
+    name = ["my_gridforce", "local_ROMS", "ROMS", "fjordROMS", "roms_patched", "ROMS2020", "gridforce.ROMS_local", "xROMS"][case["idx"] % 8].replace(".", "_")
+    spelling = ["absolute", "relative", "absolute_py", "relative"][case["idx"] % 4]
+    (wd / f"{name}.py").write_text(
+        "from vmon import rec\nfrom ladim.ROMS import Grid as _G, Forcing as _F\n\n\nclass Grid(_G):\n    def __init__(self, *a, **k):\n        rec.CALLS.append(('user.grid.init',))\n"
+        "        super().__init__(*a, **k)\n\n\nclass Forcing(_F):\n    def __init__(self, *a, **k):\n        rec.CALLS.append(('user.forcing.init',))\n        super().__init__(*a, **k)\n\n"
+        "    def update(self):\n        rec.CALLS.append(('user.forcing.update',))\n        super().update()\n")
+    start = C.T0
+    w = W.write_world(wd / "world", dict(imax=14, jmax=12, N=2, t0=str(tadd(start, -dt)), frames=[0, (ns + 3) * dt], files=[2], vel=dict(kind="const", u=0.1, v=0.05)))
+    rls = wd / "release.rls"
+    write_release(rls, ["release_time", "X", "Y", "Z"], [[start, 5.0, 5.0, 1.0], [start, 6.5, 4.0, 2.0]], header=False)
+    module = dict(absolute=str(wd / name), absolute_py=str(wd / f"{name}.py"), relative=name)[spelling]
+    v1 = dict(time_control=dict(start_time=start, stop_time=str(tadd(start, ns * dt))), files=dict(particle_release_file=str(rls), output_file=str(wd / "out.nc")),
+              gridforce=dict(module=module, input_file=str(w["files"][0])), numerics=dict(dt=dt, advection="EF", diffusion=0.0),
+              particle_release=dict(variables=["release_time", "X", "Y", "Z"], particle_variables=["release_time"], release_time="time"),
+              output_variables=dict(outper=[dt, "s"], format="NETCDF4", instance=["pid", "X", "Y", "Z"], particle=["release_time"],
+                                    pid=dict(ncformat="i4", long_name="pid"), X=dict(ncformat="f8", long_name="X"), Y=dict(ncformat="f8", long_name="Y"),
+                                    Z=dict(ncformat="f8", long_name="Z"), release_time=dict(ncformat="f8", long_name="release time", units="seconds since reference_time")))
+    cf = wd / "ladim1.yaml"
+    write_yaml(v1, cf)
+    rec.reset()
+    old_path = list(sys.path)
+    try:
+        res = run_ladim(cf, cwd=wd)
+    finally:
+        sys.path[:] = old_path
+        sys.modules.pop(name, None)
+    calls = list(rec.CALLS)
+    rec.reset()
+    V: list = []
+    desc = dict(kind="v1_gridforce", module=module, nsteps=ns)
+    sit = {"v1_user_gridforce_module": 1, "v1_user_module_name_ending_in_ROMS": int(name.endswith("ROMS"))}
+    if not res.ok:
+        V.append(C.viol(f"version-1 configuration with the user's gridforce module {module!r} did not run: {res.exc}", tb=res.tb[-1000:], **desc))
+    else:
+        nupd = sum(1 for c in calls if c[0] == "user.forcing.update")
+        if ("user.grid.init",) not in calls or ("user.forcing.init",) not in calls or nupd != ns:
+            V.append(C.viol(f"version-1 configuration names the user's module {module!r} for grid and forcing, but its Grid/Forcing did not run "
+                            f"(grid init {('user.grid.init',) in calls}, forcing init {('user.forcing.init',) in calls}, {nupd} forcing updates in {ns} steps)", **desc))
+    return C.result(V, sit, {}, nontrivial=True, key=str(desc), sample=desc)
+
+
 def run_case(case: dict[str, Any], wd: Path) -> dict[str, Any]:
+    if case.get("kind") == "v1_gridforce":
+        return run_v1_gridforce(case, wd)
     import ladim.out_netcdf as ON  # noqa: PLC0415
     import ladim.release as RL  # noqa: PLC0415
     import ladim.ROMS as RO  # noqa: PLC0415
@@ -171,7 +224,12 @@ def run_case(case: dict[str, Any], wd: Path) -> dict[str, Any]:
     rows = [[start, 6.0 + k, 5.0 + 0.5 * k, 2.0] for k in range(3)]
     if late:
         rows += [[str(tadd(start, late * dt)), 7.5, 6.5, 3.0], [str(tadd(start, late * dt)), 8.5, 5.5, 3.0]]
-    kill_step = int(rng.integers(0, ns)) if ns > 2 and rng.random() < 0.7 and case["idx"] % 3 else None
+    late_only = bool(late >= 2 and case["idx"] % 4 == 2)
+    if late_only:
+        rows = rows[3:]  # nobody in the state during the first steps: the forcing must still be evaluated (and step through its frames) every step
+        sit["no_particles_during_first_steps"] = 1
+    early_n = 0 if late_only else 3
+    kill_step = int(rng.integers(0, ns)) if ns > 2 and rng.random() < 0.7 and case["idx"] % 3 and not late_only else None
     victims = [1]
     if kill_step is not None and case["idx"] % 4 == 1:
         # everybody present is killed in the same step: no living particle until the next release (if any)
@@ -187,8 +245,9 @@ def run_case(case: dict[str, Any], wd: Path) -> dict[str, Any]:
                                output=dict(period=P * dt, instance=dict(pid="i4", X="f8", Y="f8", Z="f8", temp="f8"), numrec=2 if case["warm"] else 0))
     world = None
     if variant == "stock":
-        world = dict(imax=20, jmax=16, N=2, t0=str(tadd(start, -dt)), frames=[0, (ns + 3) * dt], files=[2], vel=dict(kind="const", u=sp_u, v=0.5 * sp_u),
-                     scalars=dict(temp=dict(kind="const", value=7.5)))
+        nfr = (ns + 3) // 2 + 2  # a frame every second step, each with its own temperature
+        world = dict(imax=20, jmax=16, N=2, t0=str(tadd(start, -dt)), frames=[2 * k * dt for k in range(nfr)], files=[nfr], vel=dict(kind="const", u=sp_u, v=0.5 * sp_u),
+                     scalars=dict(temp=dict(kind="const_frames", values=[7.5 + k for k in range(nfr)])))
         run["extra_forcing"] = ["temp"]
     else:
         run["grid"] = dict(module=modspec["grid"], filename="unused-by-this-plug-in", xmin=0.0, xmax=30.0, ymin=0.0, ymax=25.0, dx=1000.0)
@@ -345,9 +404,17 @@ def run_case(case: dict[str, Any], wd: Path) -> dict[str, Any]:
                     V.append(C.viol(f"record of step {s}: forcing-derived scalar {np.asarray(r['temp'])[:3].tolist()} is not the coded field at the record's own X, Y and time "
                                     f"({want[:3].tolist()}): positions and forcing variables of the record are not valid at the same time", **d2))
                     break
+            if variant == "stock" and label == "cold" and r["temp"] is not None and len(r["temp"]):
+                # stock forcing: the scalar of a record is the latest frame at or before the record's time (frame k at step 2k - 1)
+                want_t = 7.5 + (s + 1) // 2
+                sit["stock_scalar_values_checked"] = sit.get("stock_scalar_values_checked", 0) + len(r["temp"])
+                if np.max(np.abs(np.asarray(r["temp"]) - want_t)) > 1e-6:
+                    V.append(C.viol(f"record of step {s}: forcing-derived scalar {np.asarray(r['temp'])[:3].tolist()}, the latest forcing frame at or before that time holds {want_t}: "
+                                    f"the forcing was not evaluated at every step", **d2))
+                    break
             if label == "cold" and late and s == late:
                 sit["late_release_in_record"] = sit.get("late_release_in_record", 0) + 1
-                if not {3, 4} <= set(int(p) for p in r["pid"]):
+                if not {early_n, early_n + 1} <= set(int(p) for p in r["pid"]):
                     V.append(C.viol(f"particles released at step {late} are missing from the record of that step (pids {list(r['pid'])})", **d2))
             # the IBM of step s-1 saw the positions this record shows (nothing moves particles between IBM and the next record)
             if label == "cold" and (s - 1) in snaps and P == 1:
@@ -363,7 +430,7 @@ def run_case(case: dict[str, Any], wd: Path) -> dict[str, Any]:
         if label == "cold" and late:
             fu = [c for c in calls if c[0] == "forcing.update" and len(c) >= 3 and c[1] == late]
             gone_before = len([v for v in victims if v < 3]) if (kill_step is not None and kill_step < late) else 0
-            if fu and fu[0][2] < 5 - gone_before:
+            if fu and fu[0][2] < early_n + 2 - gone_before:
                 V.append(C.viol(f"forcing at step {late} evaluated for {fu[0][2]} particles: the particles released in this step were not included", **d2))
         # IBM sees every living pid once per step
         steps_seen = [s["step"] for s in plog if "alive" in s]
